@@ -496,17 +496,35 @@ func c12Siblings(r *an.Run, m *runModel) {
 		r.Check(good, short(f)+"|format-then-process", f.Pos(), "%s prints with format.Node and hands exactly that buffer to imports.Process", short(f))
 	}
 	// cleanupFilePos siblings
-	ca1, cb1 := fn(r, mainP, "cleanupFilePos"), fn(r, patchP, "cleanupFilePos")
-	if ca1 != nil && cb1 != nil {
-		fa, fb := fingerprint(ca1), fingerprint(cb1)
-		r.Check(strings.Join(fa, "\n") == strings.Join(fb, "\n"), "cleanupFilePos-siblings", cb1.Pos(), "main.cleanupFilePos and patch.cleanupFilePos perform the same operations (%d vs %d fingerprint entries)%s", len(fa), len(fb), firstDiff(fa, fb))
+	cleanups := cleanupFuncs(r)
+	switch len(cleanups) {
+	case 1:
+		r.Pass("cleanupFilePos-siblings", cleanups[0].Pos(), "CLI and library share one clean-up function (%s)", short(cleanups[0]))
+	case 2:
+		fa, fb := fingerprint(cleanups[0]), fingerprint(cleanups[1])
+		r.Check(strings.Join(fa, "\n") == strings.Join(fb, "\n"), "cleanupFilePos-siblings", cleanups[1].Pos(), "%s and %s perform the same operations (%d vs %d fingerprint entries)%s", short(cleanups[0]), short(cleanups[1]), len(fa), len(fb), firstDiff(fa, fb))
+	default:
+		r.Undecided("cleanupFilePos-siblings", api.Pos(), "expected one shared or two sibling clean-up functions reaching token.File.MergeLine, found %d", len(cleanups))
+	}
+	isCleanup := func(c ssa.CallInstruction) bool {
+		sc := an.StaticCallee(c)
+		for _, cf := range cleanups {
+			if sc == cf {
+				return true
+			}
+		}
+		return false
 	}
 	// the change loop of both pipelines makes the same engine calls
 	eng := func(f *ssa.Function) string {
 		var out []string
 		for _, c := range an.Calls(f) {
 			n := an.CalleeName(c)
-			if strings.Contains(n, "/internal/engine") || strings.Contains(n, "/internal/astdiff") || strings.HasSuffix(n, "cleanupFilePos") {
+			if isCleanup(c) {
+				out = append(out, "clean-up")
+				continue
+			}
+			if strings.Contains(n, "/internal/engine") || strings.Contains(n, "/internal/astdiff") {
 				n = strings.TrimPrefix(n, an.Module+"/patch.")
 				n = strings.TrimPrefix(n, an.Module+".")
 				out = append(out, an.TrimModule(n))
